@@ -256,7 +256,10 @@ func (w *l1World) genMetadata() []byte {
 		}
 		return "[" + strings.Join(xs, ",") + "]"
 	}
-	switch w.r.Weighted([]int{8, 2, 1, 1, 1, 1, 1, 1, 1, 1, 1, 1, 1}) {
+	switch w.r.Weighted([]int{8, 2, 1, 1, 1, 1, 1, 1, 1, 1, 1, 1, 1, 1}) {
+	case 13:
+		// a valid document followed by more bytes: not JSON as a whole
+		return []byte(`{"perm_channels":` + list() + `}` + []string{`}`, ` x`, `{"perm_channels":[]}`, `,`}[w.r.Intn(4)])
 	case 11:
 		// the same document with the key written with a JSON escape (every JSON parser reads perm_channels)
 		return []byte(`{"perm\u005fchannels":` + list() + `}`)
@@ -625,6 +628,10 @@ func (w *l1World) genRoot(spec *modelL1, b *mBridge) (prover.Hash, string) {
 			amt = math.NewInt(1)
 		}
 		wd := withdrawal{Seq: w.wseq[b.ID], From: fmt.Sprintf("l2user%d", w.r.Intn(5)), To: w.pickUser(), Denom: d, Amount: amt.Uint64()}
+		if w.r.Chance(1, 12) {
+			// the L2 user withdraws to an L1 module account (a valid address like any other for the bridge's payout)
+			wd.To = authtypes.NewModuleAddress([]string{authtypes.FeeCollectorName, node.DistrModule, "gov"}[w.r.Intn(3)]).String()
+		}
 		if w.r.Chance(1, 10) && len(u) > 0 && !big {
 			// same sender/recipient/denom/amount as an earlier one, different sequence
 			o := u[w.r.Intn(len(u))]
@@ -835,7 +842,7 @@ func (w *l1World) genClaim(spec *modelL1, bc blockCtx) (sdk.Msg, string) {
 			msg.BridgeId = ids[w.r.Intn(len(ids))]
 			tags = append(tags, "other-bridge-id")
 		case 6:
-			msg.OutputIndex = 1 + uint64(w.r.Intn(int(b.NextOutIdx)))
+			msg.OutputIndex = uint64(w.r.Intn(int(b.NextOutIdx) + 1)) // 0 (nothing is ever stored there) .. next
 			tags = append(tags, "other-output-index")
 		case 7:
 			msg.Amount.Amount = msg.Amount.Amount.AddRaw(1)
